@@ -330,7 +330,7 @@ fn one_case(ctx: &Ctx, case: u64, l: &mut Local) {
             let mut v = vec![
                 format!("{s}/"), format!("{s} "), format!(" {s}"), format!("{s}#"), format!("{s}?"), format!("{s}\u{0}"), format!("{s}\n"), s.to_uppercase(), s.to_lowercase(),
                 s.trim_end_matches('/').to_string(), s.trim().to_string(), s.replace("https://", "http://"), s.replace("é", "e\u{301}"), s.replace(":443", ""), format!("\"{s}\""),
-                format!("{s} {s}"), format!("{s},{s}"),
+                format!("{s} {s}"), format!("{s},{s}"), format!("{s}="), format!("{s}=="), s.trim_end_matches('=').to_string(), format!("[\"{s}\"]"),
             ];
             if let Some(st) = s.strip_suffix('/') {
                 v.push(st.to_string());
@@ -499,6 +499,12 @@ fn one_case(ctx: &Ctx, case: u64, l: &mut Local) {
             let first_two = format!("{}~{}", parts.disclosures[0], parts.disclosures[1]);
             glued2.disclosures = std::iter::once(first_two).chain(parts.disclosures.iter().skip(2).cloned()).collect();
             must_reject(l, "replay-glued", 1, &glued2, a, n, 0);
+        }
+        // empty-string entries added to the list (JSON; in compact that is a doubled '~')
+        for at in [0usize, parts.disclosures.len() / 2, parts.disclosures.len()] {
+            let mut e = parts.clone();
+            e.disclosures.insert(at.min(e.disclosures.len()), String::new());
+            must_reject(l, "replay-more", 50 + at as u64, &e, a, n, 0);
         }
         // a forged (unreferenced) disclosure added
         let mut forged = parts.clone();
